@@ -5,6 +5,8 @@ pub struct Estimates {
     pub by_id: BTreeMap<u64, u8>,
     pub incoming: u8,
     pub valid: bool,
+    /// accesses recorded by the sketch since its last ageing, when the estimates were read
+    pub increments: u64,
 }
 
 struct CommandEvents {
@@ -31,6 +33,9 @@ impl Exec {
 
     fn pre_read_estimates_quiescent(&mut self, k: u8) -> Check<Estimates> {
         self.wait_sketch_quiescent()?;
+        let (increments, _) = self.cache.verif_sketch_progress();
+        if increments < self.last_sketch_increments { self.stats.sketch_resets += 1; }
+        self.last_sketch_increments = increments;
         let mut estimates = Estimates::default();
         let cache = &self.cache;
         let held: Vec<(u8, u64)> = self.model.held.iter().map(|(held_k, entry)| (*held_k, entry.id)).collect();
@@ -42,7 +47,7 @@ impl Exec {
             (by_id, cache.verif_estimate(cache.verif_hash_of(&(k as u64))))
         }));
         match read {
-            Ok((by_id, incoming)) => { estimates.by_id = by_id; estimates.incoming = incoming; estimates.valid = true; }
+            Ok((by_id, incoming)) => { estimates.by_id = by_id; estimates.incoming = incoming; estimates.valid = true; estimates.increments = cache.verif_sketch_progress().0; }
             Err(_) => { estimates.valid = false; }
         }
         Ok(estimates)
@@ -78,6 +83,7 @@ impl Exec {
     /// Awaits queued commands (FIFO) and applies them to the model in order, validating statuses and admission steps.
     fn complete_pending(&mut self, cmds: Vec<PendingCmd>, estimates: Option<Estimates>) -> Check {
         if cmds.is_empty() { return Ok(()); }
+        let mut estimates = estimates;
         // C11: when the last acknowledgement is complete every earlier queued one is complete already
         let last = cmds.last().unwrap();
         let last_what = Self::describe(&last.cmd);
@@ -102,6 +108,15 @@ impl Exec {
         for (pending, status) in cmds.iter().zip(statuses.iter()) {
             ensure!(*status != St::Pending, "C12", "C12/ready-pending", "the acknowledgement of {} resolved to the placeholder status Pending", Self::describe(&pending.cmd));
             ensure!(*status != St::ShuttingDown, "C13", "C13/shutting-down-without-shutdown", "{} was acknowledged ShuttingDown although shutdown was never called", Self::describe(&pending.cmd));
+        }
+        // the sketch aged (all counters halved) between the reading of the estimates and the decision, which background
+        // readers can bring about in a long case: the pre-read estimates say nothing about the ones the decision saw
+        if let Some(read) = &mut estimates {
+            // with background readers, once the sketch has aged in this case their keys are no longer saturated and no longer
+            // all in the first-access filter: their traffic moves counters and filter bits again, which can collide with
+            // those of other keys; the estimates are not frozen any more
+            let aged = self.cache.verif_sketch_progress().0 < read.increments || (self.noise.is_some() && self.stats.sketch_resets > 0);
+            if read.valid && aged { read.valid = false; self.stats.adjusted_ops += 1; }
         }
         // split the trace per executed command
         let trace = self.inst.take_trace();
@@ -147,7 +162,9 @@ impl Exec {
                             (St::Accepted, St::RejSpace) if (weight as i128) <= self.model.free() + weight as i128 && events.steps.is_empty() => ("C06", "C06/fits-but-rejected"),
                             _ => ("C06", "C06/status"),
                         };
-                        return Err(Failure::new(property, tag, format!("{} was acknowledged {:?}, expected {:?} (limit {}, model now holds {:?})", what, status, expected, self.cfg.max_weight, self.model.held)));
+                        // a put accepted by the worker although the key was held and readable when it was applied overwrote a readable key: also C07
+                        let also = if tag == "C05/put-on-held-at-apply/accepted" && self.model.readable(k) { vec!["C07".to_string()] } else { Vec::new() };
+                        return Err(Failure::new(property, tag, format!("{} was acknowledged {:?}, expected {:?} (limit {}, model now holds {:?})", what, status, expected, self.cfg.max_weight, self.model.held)).with_also(also));
                     }
                     if status == St::Accepted { self.deleted_keys.remove(&k); }
                     if status == St::Accepted && from_upsert {
@@ -487,7 +504,8 @@ impl Exec {
                 self.stats.advances += 1;
                 self.stats.expired_unswept_writes += 1;
                 if *read_first { for kind in READ_KINDS { self.exec_read(kind, &[*k])?; } }
-                let retargeted = match (**write).clone() { Op::Put { w, ttl, .. } => Op::Put { k: *k, w, ttl }, Op::Upsert { value, w, ttl, .. } => Op::Upsert { k: *k, value, w, ttl }, _ => Op::Delete { k: *k } };
+                let aim = |op: Op| match op { Op::Put { w, ttl, .. } => Op::Put { k: *k, w, ttl }, Op::Upsert { value, w, ttl, .. } => Op::Upsert { k: *k, value, w, ttl }, Op::Read { kind, keys } => Op::Read { kind, keys: keys.iter().map(|_| *k).collect() }, _ => Op::Delete { k: *k } };
+                let retargeted = match (**write).clone() { Op::Stall { burst } => Op::Stall { burst: burst.into_iter().map(aim).collect() }, other => aim(other) };
                 self.sweeper_pinned = self.sweeper_held;
                 let written = self.exec_op(&retargeted);
                 self.sweeper_pinned = false;
